@@ -54,6 +54,21 @@ def as_pairs(v):
     return v
 
 
+class ProcessStdout(io.StringIO):
+    """The standard output of one simulated process: the same object for
+    every invocation in it, as sys.stdout is.  What was written stays
+    readable for the harness even if somebody closes it."""
+    saved = ""
+
+    def close(self):
+        if not self.closed:
+            self.saved = self.getvalue()
+        super().close()
+
+    def text(self):
+        return self.saved if self.closed else self.getvalue()
+
+
 class C20(Property):
     ID = "C20"
     RUNS = {"quick": 1200, "thorough": 30000}
@@ -248,6 +263,7 @@ class C20(Property):
         importlib.reload(V)
         importlib.reload(T)
         saved = (sys.stdin, sys.stdout, sys.stderr)
+        self.proc_stdout = ProcessStdout()
         try:
             for ii, inv in enumerate(case["invocations"]):
                 def viol(cls, detail, sub):
@@ -295,7 +311,8 @@ class C20(Property):
             if out is not None:
                 out.inc("fault.in-flight-abort-in-validate-row")
                 out.inc("probe.validate-with-injected-fault")
-        buf = io.StringIO()
+        buf = self.proc_stdout
+        mark = len(buf.text())
         sys.stdout = buf
         sys.stderr = io.StringIO()
         total = sum(len(case["files"][n]) // 2 for n in names)
@@ -313,11 +330,11 @@ class C20(Property):
             return viol("validate-did-not-complete",
                         "main ended in %s (exit %r) for readable text files"
                         % (o.brief(), code), o.brief())
-        rep = self.parse_report(buf.getvalue(), [paths[n] for n in names],
+        rep = self.parse_report(buf.text()[mark:], [paths[n] for n in names],
                                 many)
         if rep is None:
             return viol("report-unparsable", "report: %r" %
-                        buf.getvalue()[:400], "layout")
+                        buf.text()[mark:][:400], "layout")
         for n in names:
             p = paths[n]
             if p not in rep:
@@ -363,7 +380,8 @@ class C20(Property):
                 out.inc("probe.translate-outfile")
         elif out is not None:
             out.inc("probe.translate-stdout")
-        sout = io.StringIO()
+        sout = self.proc_stdout
+        mark = len(sout.text())
         sys.stdout = sout
         sys.stderr = io.StringIO()
         o, code = self.run_main(lambda: T.main(argv), len(data) + 500)
@@ -425,7 +443,7 @@ class C20(Property):
             except OSError:
                 got = None
         else:
-            got = sout.getvalue()
+            got = sout.text()[mark:]
         if fmt == "JSON":
             try:
                 parsed = json.loads(got, object_pairs_hook=lambda ps:
